@@ -133,11 +133,38 @@ class App(object):
         db_api.configure(c)
         self.engine = db_api.get_placement_engine()
         migration.create_schema(self.engine)
+        if os.environ.get('VERIF_SQLITE_ROWID_REUSE') != '1':
+            self._autoincrement()
         trait._TRAITS_SYNCED = False
         resource_class._RESOURCE_CLASSES_SYNCED = False
         policy.reset()
         self.app = deploy.loadapp(c)
         self._template = self.snapshot()
+
+    def _autoincrement(self):
+        """MySQL and PostgreSQL never hand out the id of a deleted row again; SQLite does (max(rowid) + 1) unless the
+        key is declared AUTOINCREMENT, which SQLAlchemy's DDL for SQLite does not do.  Reused ids hide defects that act on
+        a row id read earlier (and show others that no production database has), so the still empty tables are re-created
+        with `id INTEGER PRIMARY KEY AUTOINCREMENT`; nothing else of the schema changes."""
+        import re
+        rc = self.engine.raw_connection()
+        try:
+            con = rc.driver_connection
+            tables = con.execute("select name, sql from sqlite_master where type = 'table' and name not like 'sqlite_%'").fetchall()
+            indexes = con.execute("select tbl_name, sql from sqlite_master where type = 'index' and sql is not null").fetchall()
+            for name, sql in tables:
+                if not re.search(r'\bid INTEGER NOT NULL', sql) or not re.search(r'PRIMARY KEY \(id\)', sql):
+                    continue
+                new = re.sub(r'\bid INTEGER NOT NULL', 'id INTEGER PRIMARY KEY AUTOINCREMENT NOT NULL', sql, count=1)
+                new = re.sub(r',\s*PRIMARY KEY \(id\)', '', new, count=1)
+                con.execute('DROP TABLE "%s"' % name)
+                con.execute(new)
+                for tbl, isql in indexes:
+                    if tbl == name:
+                        con.execute(isql)
+            con.commit()
+        finally:
+            rc.close()
 
     # ------------------------------------------------------------------ db
     def raw(self):
